@@ -6,15 +6,16 @@ import SygmaModel.Drv.C14
 namespace Sygma.Drv.C19
 open Sygma.C04 Sygma.C05 Sygma.C19 Sygma.Drv.C04 Sygma.Drv.C05
 
-def hex2 (n : Nat) : String := toHex [UInt8.ofNat n]
+/-- a 32-byte resource id as 64 hex digits; ids are compared as byte strings of equal length = as big-endian numbers -/
+def hex2 (n : Nat) : String := toHex (pad32 n)
 
-/-- `idByteHex:addrIdx:feeSat` -/
+/-- `idHex:addrIdx:feeSat`; idHex = up to 32 bytes, right-padded with zeros (Go `copy` into a `[32]byte`) -/
 def parseRes (s : String) : Option Res :=
   match s.splitOn ":" with
   | [i, a, f] => do
     let b ← fromHex i
-    let id ← b.head?
-    pure ⟨id.toNat, ← a.toNat?, ← f.toInt?⟩
+    if b.length > 32 then none
+    pure ⟨beToNat (rightPad 32 b), ← a.toNat?, ← f.toInt?⟩
   | _ => none
 
 def parseVout (s : String) : Option Vout :=
@@ -135,6 +136,30 @@ def handle (op : String) (args : List String) (impl : String) : Option Verdict :
     return ⟨m, ok, s!"tworel:{kindStr kind}:overlap={overlap}:common={min common.length 3}"⟩
   -- the per-batch signing session ids of the EVM executor (`<message id>-<batch index>`): what `Execute` hashes and signs
   -- and under which session id, as a function of the delivery only (model and predicate are C14's `exec`)
+  | "evmsession2", args => some <| Id.run do
+    -- the same delivery executed twice on one Executor: both rounds are the history-free sessions of the delivery
+    let some one := Sygma.Drv.C14.handle "exec" args "" | return bad
+    let parts := impl.splitOn "#"
+    let each := parts.all fun p => match Sygma.Drv.C14.handle "exec" args p with
+      | some v => v.propOk
+      | none => false
+    let ok := parts.length == 2 && each && parts.headD "" == parts.getD 1 "?"
+    return ⟨one.model ++ "#" ++ one.model, ok, "evmsession2:" ++ one.tag⟩
+  | "evminterleave", [src, s1, e1, s2, e2, order, ds] => some <| Id.run do
+    let some src := src.toNat? | return bad
+    let some s1 := s1.toInt? | return bad
+    let some e1 := e1.toInt? | return bad
+    let some s2 := s2.toInt? | return bad
+    let some e2 := e2.toInt? | return bad
+    let some ds := ((items ds ",").zipIdx.mapM fun (x, i) => parseDep i x) | return bad
+    let m := "A:" ++ showGroups src s1 e1 ds ++ "#B:" ++ showGroups src s2 e2 ds
+    -- each call's messages carry the ids of ITS OWN range, whatever else the handler object is doing meanwhile
+    let ok := match impl.splitOn "#" with
+      | [a, b] =>
+        (match parseGroups (a.drop 2).toString with | some gs => a.startsWith "A:" && groupsOk src s1 e1 ds gs | none => false) &&
+        (match parseGroups (b.drop 2).toString with | some gs => b.startsWith "B:" && groupsOk src s2 e2 ds gs | none => false)
+      | _ => false
+    return ⟨m, ok, s!"evminterleave:{order}:n={min ds.length 3}"⟩
   | "evmsession", args => (Sygma.Drv.C14.handle "exec" args impl).map fun v => { v with tag := "evmsession:" ++ v.tag }
   | _, _ => none
 
